@@ -1,8 +1,10 @@
 """C17 specification model: the text one PRINT statement writes.
 
 Transcribed from the property statement.  An element is ';' | ',' | (type,
-value).  The texts of the few numbers of the C17 alphabet are constants of the
-model (number -> text in general is C16's subject)."""
+value).  The texts of the few numbers of the C17 conformance alphabet are
+constants of the model (number -> text in general is C16's subject); for other
+numbers the caller passes `number_text`, a mapping (type, value) -> text that it
+obtained in a history-free way (see qv/checks/c17.py, family `history`)."""
 
 NUMBER_TEXT = {('INTEGER', 5): ' 5', ('INTEGER', -5): '-5', ('LONG', 100000): ' 100000',
                ('SINGLE', 1.5): ' 1.5', ('DOUBLE', 1.5): ' 1.5'}
@@ -10,7 +12,9 @@ ZONE = 14
 EOL = '\n'
 
 
-def layout(elements):
+def layout(elements, number_text=None):
+    if number_text is None:
+        number_text = NUMBER_TEXT
     out = ''
     for e in elements:
         if e == ';':
@@ -20,7 +24,7 @@ def layout(elements):
         elif e[0] == 'STRING':
             out += e[1]                            # verbatim
         else:
-            out += NUMBER_TEXT[e] + ' '            # number text and one blank
+            out += number_text[e] + ' '            # number text and one blank
     if not elements or elements[-1] not in (';', ','):
         out += EOL                                 # line break unless it ends in a separator
     return out
